@@ -272,6 +272,53 @@ def r_cmd_shapes(ctx):
     else:
         ctx.violation('%s:command-shapes-differ' % d.qualname, d.loc(), 'the decorator packs tuple sizes %s, the dispatcher unpacks %s (bare id handled: %s)' % (sorted(shapes_set), sorted(unpack), bare),
                       instance=inst)
+    # which shape is chosen: evaluated for all four combinations of empty / non-empty args and kwargs
+    inst = 'no user argument is dropped when the command is packed'
+    chain = None
+    for n in U.walk_no_nested(wrap.node):
+        if isinstance(n, ast.If) and any(isinstance(x, ast.Assign) and isinstance(x.targets[0], ast.Name) and x.targets[0].id == cmdvar for x in n.body):
+            chain = n
+            break
+    if chain is None:
+        ctx.unproven(inst, wrap.loc(dumps), 'shape selection is not an if/elif chain')
+    else:
+        arms = []
+        cur = chain
+        while True:
+            asg = [x for x in cur.body if isinstance(x, ast.Assign) and isinstance(x.targets[0], ast.Name) and x.targets[0].id == cmdvar]
+            arms.append((cur.test, asg[0].value if asg else None))
+            if len(cur.orelse) == 1 and isinstance(cur.orelse[0], ast.If):
+                cur = cur.orelse[0]
+                continue
+            asg = [x for x in cur.orelse if isinstance(x, ast.Assign) and isinstance(x.targets[0], ast.Name) and x.targets[0].id == cmdvar]
+            if asg:
+                arms.append((None, asg[0].value))
+            break
+        bad = None
+        n_eval = 0
+        try:
+            for a_ne in (False, True):
+                for k_ne in (False, True):
+                    env = {'args': (1,) if a_ne else (), 'kwargs': {'k': 1} if k_ne else {}}
+                    chosen = None
+                    for test, val in arms:
+                        n_eval += 1
+                        if test is None or U.eval_arith(test, env):
+                            chosen = val
+                            break
+                    names = set(x.id for x in ast.walk(chosen) if isinstance(x, ast.Name)) if chosen is not None else set()
+                    if (a_ne and 'args' not in names) or (k_ne and 'kwargs' not in names):
+                        bad = (a_ne, k_ne, unparse(chosen) if chosen is not None else None)
+        except AnalysisError as e:
+            ctx.unproven(inst, wrap.loc(chain), str(e))
+            bad = 0
+        ctx.tick(n_eval)
+        if bad is None:
+            ctx.ok(inst, wrap.loc(chain), 'for empty/non-empty args x kwargs the packed command contains every non-empty part')
+        elif bad != 0:
+            ctx.violation('%s:command-drops-arguments' % wrap.qualname, wrap.loc(chain),
+                          'with %s positional and %s keyword arguments the call is packed as `%s`: the %s are silently dropped and every replica runs the method with defaults'
+                          % ('some' if bad[0] else 'no', 'some' if bad[1] else 'no', bad[2], 'keyword arguments' if bad[1] and 'kwargs' not in (bad[2] or '') else 'positional arguments'), instance=inst)
     # component order: id first, args second, kwargs third on both sides
     inst = 'component order (id, args, kwargs) agrees'
     ctx.tick()
